@@ -223,9 +223,11 @@ check('C01', 'exploration',
       'DESIGN.md 2.1, 5/C01')
 
 EXTRA_TEXT = {
+    'C15': ' LIMIT 0 is a limit.',
+    'C06': ' The text rendered for a target must not depend on how the target is named (name, alias postgres, sqlalchemy dialect class); casts to every type name.',
     'C05': ' TailGen.tla enumerates what may follow a complete statement (semicolons, comments, tokens, line breaks; three-valued contract) and each tail is spelled after real statements.',
-    'C04': ' Identifier paths are also rendered through SQLAlchemy for eleven ways of naming a dialect (names, the alias postgres, dialect classes) and the rendered statement is matched by TLC (TPath / MatchSegs in Lexeme.tla) under the target rules; long names and long literal bodies.',
-    'C01': ' Also: derivation trees of depth 2-3 at every self-recursive nonterminal (two clauses / options of one statement together, in both orders) and every constant position spelled with every kind of constant.',
+    'C04': ' Identifier paths are also rendered through SQLAlchemy for eleven ways of naming a dialect (names, the alias postgres, dialect classes) and the rendered statement is matched by TLC (TPath / MatchSegs in Lexeme.tla) under the target rules; long names and long literal bodies. String constants with special characters are rendered next to the names.',
+    'C01': ' Also: derivation trees of depth 2-3 at every self-recursive nonterminal (two clauses / options of one statement together, in both orders) and every constant position spelled with every kind of constant. Clause-bearing nonterminals are also expanded as operands of other productions (operand cover).',
     'C02': ' Also: edge lexemes (empty strings, zero, quoted names with blanks/dots) in the grammar sentences, one representative '
            'per Unicode category in 9 positions, an adversarial-lexing termination probe (30 s budget), and parse calls forced to '
            'overlap in time along schedules enumerated by TLC (Calls.tla). Clause combinations (pair cover), constants of every kind and string positions spelled as dates / numbers / JSON / SQL text: outcome-only pass.',
@@ -233,19 +235,19 @@ EXTRA_TEXT = {
     'C07': ' Positions next to an operator sign (unary minus, subtraction): the literal must not fuse with it into a comment marker. Render paths include the alias postgres and the five dialect classes; numbers printed by the tree itself must be one number token of the library lexer.',
     'C08': ' Query space includes CTEs named like tables of another integration; a fetch that still carries an integration '
            'qualifier cannot be evaluated by its integration and counts as a failure. Comma joins (Implicit) and composite ON clauses (JoinOn: negated, disjoined, constant-first, inequality) are families of QuerySpace.tla.',
-    'C09': ' Call histories: several queries on one QueryPlanner object / fresh planners sharing the catalog objects; every plan judged.',
-    'C10': ' Call histories as in C09; versioned and plain references to one model in one statement.',
+    'C09': ' Call histories: several queries on one QueryPlanner object / fresh planners sharing the catalog objects; every plan judged. ON clauses that name the item written directly before (a model column), with and without partition_size.',
+    'C10': ' Call histories as in C09; versioned and plain references to one model in one statement. Sub-selects in GROUP BY / HAVING / ORDER BY / targets / WHERE of a query that joins tables of two integrations.',
     'C11': ' Correlated sub-queries (SQLSem resolves outer scopes) and the same integration under other names (crm_views, s3files, My_Db).',
     'C12': ' Numbering is also judged on every AND/OR/NOT tree of ExprPrec.tla (up to 3 operators, minimal and full parentheses) with a '
            'placeholder at each leaf in WHERE / HAVING / ON / DELETE / UPDATE conditions.',
-    'C13': ' Visits of nodes that the visitor itself returned as replacements are counted and judged (a replacement is never visited).',
+    'C13': ' Visits of nodes that the visitor itself returned as replacements are counted and judged (a replacement is never visited). A call of the visitor with None (an empty slot "visited") is a violation on parser-produced trees.',
     'C14': ' Variants: constant-first spellings of table conditions, a CTE named like the model (unused and used). ON clauses: ModelJoinOnGen.tla enumerates every ON tree of depth <= 2 over the join equality and two comparisons x 4 join kinds, with what may restrict the joined table fetch (AllowedPushOn, SemiJoinAllowed); legacy dict-form catalogs; USING keys addressed through the alias in another letter case.',
     'C16': ' Lexeme kinds include doubled single quotes inside a double-quoted literal and a semicolon inside quotes / a quoted name.',
     'C18': ' Steps and plans of one query planned under different catalogs (ordinary vs time-series model, names vs dicts) are compared '
-           'pairwise both ways: symmetry, equal => structurally the same, transitivity.',
+           'pairwise both ways: symmetry, equal => structurally the same, transitivity. Nested JSON arrays / objects of six shapes in every dict-valued statement position.',
     'C19': ' Illegal-character reports are judged on CRLF texts and after U+2028 / FF / NEL / VT inside literals.',
     'C20': ' Call kinds include prepare_steps / get_statement_info; planner call histories (one planner object, shared catalog objects) '
-           'must give the plan of a fresh planner; pairs of rejected inputs are forced through block-shaped 5-step schedules.',
+           'must give the plan of a fresh planner; pairs of rejected inputs are forced through block-shaped 5-step schedules. The same catalog objects handed to calls with another predictor_namespace; the dialect classes are compared with their state before the first call of the process.',
 }
 
 ALL = ['C%02d' % i for i in range(1, 21)]
